@@ -137,7 +137,7 @@ private theorem reversalsOver_size (rows columns : Nat) (flags : List (Bool × B
         `(o / columns, o % columns)` of `rs`.
     The only hypothesis besides the construction is that the element count fits in `usize`. -/
 theorem constructed_history_view_iteration (c : Ctor α) (m0 : Matrix α) (hc : c.build = .ok m0)
-    (l : Live α) (hl : l.leaf = m0) (ops : List (Op α))
+    (l : Live α) (hl : l.leaf = m0) (ops : List (Matrix.Op α))
     (hfit : (m0.run ops).data.length ≤ usizeMax) (n : Nat) :
     let m := m0.run ops
     let rs := Rows.run (Rows.ctorRows c) ops
